@@ -32,5 +32,7 @@ SEEDED = [
     ("C06-3", "C06-INPUT"),
     ("C06-4", "C06-ORDER"),
     ("C06-5", "C06-PURE"),
+    ("C06-6", "C06-ORDER"),
+    ("C06-7", "C06-DEFAULT"),
 ]
 MUTANTS = list(MUTANTS) + [_P("seed-" + sid, _os.path.join(_SEEDS, sid, "patch.diff"), rule) for sid, rule in SEEDED if _os.path.exists(_os.path.join(_SEEDS, sid, "patch.diff"))]
